@@ -10,6 +10,7 @@ import (
 	"net"
 	"strings"
 	"sync"
+	"syscall"
 	"time"
 
 	"github.com/mholt/caddy-l4/modules/l4proxy"
@@ -58,6 +59,8 @@ type upstream struct {
 	ln   net.Listener
 	got  []string // payload tags received (one per connection), in order
 	open map[string]net.Conn
+	// reserveFD holds the port (bound, not listening) while the upstream is down
+	reserveFD int
 }
 
 func newUpstream() (*upstream, error) {
@@ -104,16 +107,55 @@ func (u *upstream) serve(l net.Listener) {
 	}()
 }
 
+// down makes the upstream refuse connections. The port stays reserved by a socket that is bound but not listening
+// (connects are refused), so that the kernel cannot hand the port to another listener or connection of this process
+// while the upstream is "down" - a proxied connection would otherwise end up at somebody else's server.
 func (u *upstream) down() {
 	u.mu.Lock()
+	defer u.mu.Unlock()
 	if u.ln != nil {
 		u.ln.Close()
 		u.ln = nil
+	}
+	if u.reserveFD == 0 {
+		if ta, err := net.ResolveTCPAddr("tcp", u.addr); err == nil {
+			for i := 0; i < 50; i++ {
+				fd, err := syscall.Socket(syscall.AF_INET, syscall.SOCK_STREAM, 0)
+				if err != nil {
+					break
+				}
+				_ = syscall.SetsockoptInt(fd, syscall.SOL_SOCKET, syscall.SO_REUSEADDR, 1)
+				sa := &syscall.SockaddrInet4{Port: ta.Port}
+				copy(sa.Addr[:], ta.IP.To4())
+				if err := syscall.Bind(fd, sa); err == nil {
+					u.reserveFD = fd
+					break
+				}
+				syscall.Close(fd)
+				time.Sleep(5 * time.Millisecond)
+			}
+		}
+	}
+}
+
+// release gives the reserved port back (end of the history).
+func (u *upstream) release() {
+	u.down()
+	u.mu.Lock()
+	if u.reserveFD != 0 {
+		syscall.Close(u.reserveFD)
+		u.reserveFD = 0
 	}
 	u.mu.Unlock()
 }
 
 func (u *upstream) upAgain() error {
+	u.mu.Lock()
+	if u.reserveFD != 0 {
+		syscall.Close(u.reserveFD)
+		u.reserveFD = 0
+	}
+	u.mu.Unlock()
 	var l net.Listener
 	var err error
 	for i := 0; i < 50; i++ {
@@ -314,8 +356,8 @@ func passive(c *fw.Ctx, canary *oracle.Canary, h *History) {
 		return
 	}
 	B, _ := newUpstream()
-	defer A.down()
-	defer B.down()
+	defer A.release()
+	defer B.release()
 	A.down() // A refuses connections
 	D := time.Duration(h.D) * time.Millisecond
 	slack := D / 3
@@ -397,8 +439,8 @@ func retry(c *fw.Ctx, canary *oracle.Canary, h *History) {
 		return
 	}
 	B, _ := newUpstream()
-	defer A.down()
-	defer B.down()
+	defer A.release()
+	defer B.release()
 	A.down()
 	B.down()
 	T := time.Duration(h.T) * time.Millisecond
@@ -472,8 +514,8 @@ func active(c *fw.Ctx, canary *oracle.Canary, h *History) {
 		return
 	}
 	B, _ := newUpstream()
-	defer A.down()
-	defer B.down()
+	defer A.release()
+	defer B.release()
 	sel := nextTag("sel")
 	routes := proxyRoutes([]map[string]any{dial(A), dial(B)}, map[string]any{
 		"health_checks": map[string]any{"active": map[string]any{"interval": "100ms", "timeout": "200ms"}}}, sel)
@@ -518,8 +560,8 @@ func limit(c *fw.Ctx, canary *oracle.Canary, h *History) {
 		return
 	}
 	B, _ := newUpstream()
-	defer A.down()
-	defer B.down()
+	defer A.release()
+	defer B.release()
 	sel := nextTag("sel")
 	ua := dial(A)
 	extra := map[string]any{}
@@ -637,8 +679,8 @@ func passiveReload(c *fw.Ctx, canary *oracle.Canary, h *History) {
 		return
 	}
 	B, _ := newUpstream()
-	defer A.down()
-	defer B.down()
+	defer A.release()
+	defer B.release()
 	A.down()
 	D := time.Duration(h.D) * time.Millisecond
 	slack := D/3 + 150*time.Millisecond
@@ -697,9 +739,9 @@ func limitMultiPeer(c *fw.Ctx, canary *oracle.Canary, h *History) {
 	}
 	A2, _ := newUpstream()
 	B, _ := newUpstream()
-	defer A1.down()
-	defer A2.down()
-	defer B.down()
+	defer A1.release()
+	defer A2.release()
+	defer B.release()
 	A2.down()
 	sel := nextTag("sel")
 	ua := map[string]any{"dial": []string{"tcp/" + A1.addr, "tcp/" + A2.addr}, "max_connections": h.Max}
